@@ -483,6 +483,20 @@ def main():
         not_observed=inconclusive,
         exhaustive=False,
     )
+    if prop == "C07":
+        # cross-check the pair table against the symbol table of the freshly built library: an accelerated
+        # kernel that is not in the catalogue is reported (information, not a violation)
+        try:
+            lib = os.path.join(BUILD, "asan", "lib", "spqlios", "libspqlios.a")
+            syms = set(l.split()[-1] for l in sh(["nm", "-g", "--defined-only", lib]).stdout.splitlines() if " T " in l)
+            acc = sorted(x for x in syms if re.search(r"(_avx|_avx2|_fma|_sse|_avx512)$", x))
+            cat = set(l.split("\t")[0] for l in sh([os.path.join(BUILD, "asan", "vp_harness"), "--list-ops"]).stdout.splitlines())
+            cov["accelerated_symbols_in_library"] = len(acc)
+            cov["uncovered_accelerated_symbols"] = [x for x in acc if x not in cat]
+            if cov["uncovered_accelerated_symbols"]:
+                log("INFO accelerated symbols without a pair in the catalogue:", " ".join(cov["uncovered_accelerated_symbols"]))
+        except Exception as e:  # noqa: BLE001
+            cov["uncovered_accelerated_symbols"] = [f"cross-check failed: {e}"]
     ev = dict(property_id=prop, tier=tier, seed=seed, level="exploration", coverage=cov,
               assumptions=P.get("assumptions", []), wall_s=round(time.time() - t0, 2),
               violations=n_new)
